@@ -1,4 +1,5 @@
 import Proofs.Store
+import Proofs.StoreAlias
 /-!
 # C10 — a ResendRequest is answered with exactly the requested stored messages
 
@@ -106,3 +107,30 @@ theorem C10_gap (s : Sess) (m : InMsg) (h : s.inCounter + 1 < m.hdrSeq) :
 theorem C10_no_gap (s : Sess) (m : InMsg) (h : ¬ s.inCounter + 1 < m.hdrSeq) :
     outBodies (processIncSeq s m).2 = [] := by
   rw [processIncSeq_bodies]; simp [h]
+
+
+/-! ### object identity (finding F-C10-reused-object)
+
+The theorems above are about the session model, whose store holds message *values*. The code's store holds the
+application's message *objects* (`FixModel/StoreAlias.lean`, tied to the code by the `alias` correspondence of the
+resend scenario, which agrees with the implementation on fresh **and** re-used objects). -/
+
+open StoreAlias in
+/-- every message sent is an object of its own: a ResendRequest b..e (e = 0: through the last) is answered with
+    exactly the first transmissions under those numbers, in ascending order — for every history and every range -/
+theorem C10_fresh_objects_exact (sends : List (Nat × Nat)) (hfresh : (sends.map (·.1)).Nodup) (b e : Nat) :
+    resend (run sends) b e = wantedFirst (run sends) b e :=
+  resend_exact_of_inv _ (run_inv sends {} init_inv hfresh (by intro o _ h; simp at h)) b e
+
+open StoreAlias in
+/-- … and each of those carries the number it was first sent under -/
+theorem C10_fresh_objects_numbered (sends : List (Nat × Nat)) (hfresh : (sends.map (·.1)).Nodup) (k : Nat) (c : Content)
+    (h : firstTx (run sends) k = some c) : c.seq = k :=
+  (run_inv sends {} init_inv hfresh (by intro o _ h; simp at h)).seq k c h
+
+open StoreAlias in
+/-- the finding, exactly: one object sent twice, then ResendRequest 1..2 — the first number is answered with the
+    second content under the second number -/
+theorem C10_reused_object_witness :
+    resend (run [(0, 10), (0, 11)]) 1 2 = [⟨2, 11⟩, ⟨2, 11⟩] ∧ wantedFirst (run [(0, 10), (0, 11)]) 1 2 = [⟨1, 10⟩, ⟨2, 11⟩] := by
+  decide
